@@ -89,7 +89,9 @@ func skippedDir(rel string, extra []string) bool {
 
 func (c *Ctx) genTree() treeSpec {
 	t := treeSpec{files: map[string]string{}, old: map[string]bool{}, near: map[string]bool{}}
-	dirs := []string{"", "a", "a/b", "vendor", "vendor/x", "node_modules/m", ".hidden", "_private", "skipme", "a/skipme", "a/.git", "deep/er/est"}
+	// (directories whose names merely END in a skipped name, or start with one, are ordinary directories)
+	dirs := []string{"", "a", "a/b", "vendor", "vendor/x", "node_modules/m", ".hidden", "_private", "skipme", "a/skipme", "a/.git", "deep/er/est",
+		"govendor", "a/old_node_modules", "xskipme", "skipme2/in", "vendors"}
 	n := 3 + c.R.Intn(8)
 	for i := 0; i < n; i++ {
 		d := dirs[c.R.Intn(len(dirs))]
